@@ -1540,7 +1540,8 @@ Proof.
     rewrite Hd', He, (from16_flat_bom_scalars le _ Hstrip) in HF'.
     destruct (from_utf16 le d') as [t| |]; cbn [flat_res] in HF'; try discriminate. cbn [bind].
     destruct (to_utf8_without_bom_flat t) as (t' & Et & Ft). rewrite Et. cbn [flat_res].
-    inversion HF' as [Hft]. rewrite Ft, Hft, (strip_bom8_utf8 _ Hstrip). reflexivity.
+    assert (Hft : flat t = utf8_of (strip1 (cp0 :: t0))) by (injection HF'; auto).
+    rewrite Ft, Hft, (strip_bom8_utf8 _ Hstrip). reflexivity.
 Qed.
 
 (* arbitrary bytes, arbitrary split: UTF-8 -> UTF-16 is a function of the concatenation; NULL exactly when the flat
@@ -1601,3 +1602,213 @@ Proof.
     destruct (a + 256 * b =? 65279); [reflexivity|]. destruct (a + 256 * b =? 65534); reflexivity.
 Qed.
 End Top.
+
+(* ------------------------------------------------------------------------------------------------ arbitrary input: NULL or accepted by the inverse *)
+
+Section Accepted.
+Local Ltac Zify.zify_post_hook ::= Z.div_mod_to_equations.
+
+(* ---- whatever UTF-16 -> UTF-8 returns is the UTF-8 encoding of a sequence of scalar values *)
+
+Lemma get16_range : forall le b0 b1, byte b0 -> byte b1 -> 0 <= get16 le b0 b1 < 65536.
+Proof. intros le b0 b1 H0 H1. unfold byte in *. unfold get16. destruct le; lia. Qed.
+
+Lemma pair_val_scalar : forall ch ch2, is_hi ch = true -> is_lo ch2 = true -> scalar (pair_val ch ch2).
+Proof.
+  intros ch ch2 Hh Hl. unfold is_hi, is_lo in *. unfold pair_val.
+  rewrite Z.shiftl_mul_pow2 by lia. change (2 ^ 10) with 1024.
+  rewrite (u32_id ((ch - 55296) * 1024)) by lia.
+  assert (Hm : Z.land ch2 1023 = ch2 mod 1024) by (change 1023 with (2 ^ 10 - 1); apply land_low; lia).
+  rewrite Hm.
+  assert (Hlor : Z.lor ((ch - 55296) * 1024) (ch2 mod 1024) = (ch - 55296) * 1024 + ch2 mod 1024).
+  { rewrite Z.lor_comm. change ((ch - 55296) * 1024) with ((ch - 55296) * 2 ^ 10).
+    rewrite (lor_disjoint (ch2 mod 1024) (ch - 55296) 10) by (change (2 ^ 10) with 1024; lia). lia. }
+  rewrite Hlor, u32_id by lia. unfold scalar, is_scalar. lia.
+Qed.
+
+Lemma from16_step_scalars : forall le first l out rest, bytes l ->
+  from16_step le first l = Some (out, rest) ->
+  bytes rest /\ (out = [] \/ exists cp, scalar cp /\ out = utf8_enc cp).
+Proof.
+  intros le first l out rest Hb H. unfold from16_step in H.
+  destruct l as [|b0 [|b1 tl]]; try discriminate.
+  apply Forall_cons_iff in Hb. destruct Hb as [H0 Hb]. apply Forall_cons_iff in Hb. destruct Hb as [H1 Hb].
+  pose proof (get16_range le b0 b1 H0 H1) as Hr. cbv zeta in H.
+  destruct ((get16 le b0 b1 =? 65534) && first); [discriminate|].
+  destruct ((get16 le b0 b1 =? 65279) && first); [inversion H; subst; split; [exact Hb|left; reflexivity]|].
+  destruct (is_hi (get16 le b0 b1)) eqn:Eh.
+  - destruct tl as [|c0 [|c1 tl']]; try discriminate.
+    apply Forall_cons_iff in Hb. destruct Hb as [Hc0 Hb]. apply Forall_cons_iff in Hb. destruct Hb as [Hc1 Hb].
+    destruct (is_lo (get16 le c0 c1)) eqn:El; cbn [negb] in H; [|discriminate].
+    inversion H; subst. split; [exact Hb|]. right. eexists. split; [|reflexivity]. apply pair_val_scalar; assumption.
+  - destruct (is_lo (get16 le b0 b1)) eqn:El; [discriminate|]. inversion H; subst. split; [exact Hb|].
+    right. exists (get16 le b0 b1). split; [|reflexivity]. unfold is_hi, is_lo in *. unfold scalar, is_scalar. lia.
+Qed.
+
+Lemma from16_floop_scalars : forall le fuel first l acc V, bytes l ->
+  from16_floop le fuel first l acc = Some V -> exists cps, Forall scalar cps /\ V = acc ++ utf8_of cps.
+Proof.
+  intros le. induction fuel as [|f IH]; intros first l acc V Hb H.
+  - destruct l; [|discriminate]. inversion H; subst. exists []. split; [constructor|]. cbn. rewrite app_nil_r. reflexivity.
+  - destruct l as [|b tl]; [inversion H; subst; exists []; split; [constructor|cbn; rewrite app_nil_r; reflexivity]|].
+    cbn [from16_floop] in H. destruct (from16_step le first (b :: tl)) as [[out rest]|] eqn:Es; [|discriminate].
+    destruct (from16_step_scalars le first _ out rest Hb Es) as [Hbr Ho].
+    destruct (IH false rest (acc ++ out) V Hbr H) as (cps & Hs & Ev).
+    destruct Ho as [->|(cp & Hcp & ->)].
+    + exists cps. rewrite app_nil_r in Ev. auto.
+    + exists (cp :: cps). split; [constructor; assumption|]. rewrite Ev, <- app_assoc. reflexivity.
+Qed.
+
+(* arbitrary UTF-16 input (any bytes): whatever the transform returns, the inverse transform accepts *)
+Theorem utf16_to_utf8_accepted : forall le l V, bytes l -> from16_flat le l = Some V ->
+  exists U, to16_flat le (strip_bom8 V) = Some U.
+Proof.
+  intros le l V Hb H. unfold from16_flat, G8 in H.
+  destruct (from16_floop_scalars le _ true l [] V Hb H) as (cps & Hs & Ev). cbn [app] in Ev. subst V.
+  rewrite (strip_bom8_utf8 cps Hs).
+  assert (Hstrip : Forall scalar (strip1 cps)).
+  { destruct cps as [|cp t]; [constructor|]. unfold strip1. destruct (cp =? 65279); [|exact Hs].
+    apply Forall_cons_iff in Hs. tauto. }
+  rewrite (to16_flat_scalars le _ Hstrip). eauto.
+Qed.
+
+(* ---- whatever UTF-8 -> UTF-16 returns is BOM + a sequence of well-formed UTF-16 items *)
+
+Definition good_item (le : bool) (it : list Z) : Prop :=
+  (exists v, 0 <= v < 65536 /\ is_hi v = false /\ is_lo v = false /\ it = unit16 le v) \/
+  (exists h l, is_hi h = true /\ is_lo l = true /\ it = unit16 le h ++ unit16 le l).
+
+Lemma rc_spec_nonneg : forall n l w v, 0 <= w -> rc_spec l n w = Some v -> 0 <= v.
+Proof.
+  induction n as [|n IH]; intros l w v Hw H; cbn [rc_spec] in H.
+  - inversion H; subst. exact Hw.
+  - destruct l as [|b l']; [discriminate|]. cbv zeta in H. apply IH in H; [exact H|].
+    assert (H0 : 0 <= Z.lor w (Z.land b 63)) by (apply Z.lor_nonneg; split; [exact Hw|apply Z.land_nonneg; right; lia]).
+    destruct (0 <? Z.of_nat n); [unfold u32; lia|exact H0].
+Qed.
+
+Lemma seq_val_nonneg : forall l v, seq_val l = Some v -> 0 <= v.
+Proof.
+  intros l v H. unfold seq_val in H. destruct l as [|b0 l']; [discriminate|]. cbv zeta in H.
+  apply rc_spec_nonneg in H; [exact H|].
+  repeat match goal with |- context [if ?c then _ else _] => destruct c end;
+    try (rewrite Z.shiftl_nonneg); try (apply Z.land_nonneg; right; lia); lia.
+Qed.
+
+Lemma emit16_good : forall le first wch out, 0 <= wch -> emit16 le first wch = Some out ->
+  out = [] \/ good_item le out.
+Proof.
+  intros le first wch out Hw H. unfold emit16 in H.
+  destruct ((wch =? 65279) && first); [inversion H; auto|].
+  destruct ((55296 <=? wch) && (wch <=? 57343)) eqn:Es; [discriminate|].
+  destruct (Z.leb_spec 65536 wch) as [Ha|Hb].
+  - cbv zeta in H. inversion H; subst. right. right.
+    eexists; eexists. split; [|split; [|reflexivity]]; unfold is_hi, is_lo.
+    + assert (0 <= Z.land (Z.shiftr (u32 (wch - 65536)) 10) 1023 < 1024)
+        by (change 1023 with (2 ^ 10 - 1); rewrite land_low by lia; change (2 ^ 10) with 1024; lia). lia.
+    + assert (0 <= Z.land (u32 (wch - 65536)) 1023 < 1024)
+        by (change 1023 with (2 ^ 10 - 1); rewrite land_low by lia; change (2 ^ 10) with 1024; lia). lia.
+  - inversion H; subst. right. left. exists wch.
+    assert (Hl : Z.land wch 65535 = wch) by (change 65535 with (2 ^ 16 - 1); rewrite land_low by lia; change (2 ^ 16) with 65536; lia).
+    rewrite Hl. unfold is_hi, is_lo. repeat split; lia.
+Qed.
+
+Lemma to16_floop_good : forall le fuel first l acc U,
+  to16_floop le fuel first l acc = Some U -> exists items, Forall (good_item le) items /\ U = acc ++ concat items.
+Proof.
+  intros le. induction fuel as [|f IH]; intros first l acc U H.
+  - destruct l; [|discriminate]. inversion H; subst. exists []. split; [constructor|]. cbn. rewrite app_nil_r. reflexivity.
+  - destruct l as [|b tl]; [inversion H; subst; exists []; split; [constructor|cbn; rewrite app_nil_r; reflexivity]|].
+    cbn [to16_floop] in H. destruct (to16_step le first (b :: tl)) as [[out rest]|] eqn:Es; [|discriminate].
+    destruct (IH false rest (acc ++ out) U H) as (items & Hg & Eu).
+    unfold to16_step in Es.
+    destruct (utf8_length b =? 0); [discriminate|]. destruct (Zlength (b :: tl) <? utf8_length b); [discriminate|].
+    destruct (seq_val (b :: tl)) as [wch|] eqn:Ev; [|discriminate].
+    destruct (emit16 le first wch) as [o|] eqn:Ee; [|discriminate]. inversion Es; subst o rest.
+    destruct (emit16_good le first wch out (seq_val_nonneg _ _ Ev) Ee) as [->|Hgo].
+    + exists items. rewrite app_nil_r in Eu. auto.
+    + exists (out :: items). split; [constructor; assumption|]. rewrite Eu, <- app_assoc. reflexivity.
+Qed.
+
+Lemma G8_good : forall le items acc, Forall (good_item le) items ->
+  exists V, G8 le false (concat items) acc = Some V.
+Proof.
+  intros le. induction items as [|it items IH]; intros acc H.
+  - exists acc. reflexivity.
+  - apply Forall_cons_iff in H. destruct H as [Hi Hr]. cbn [concat].
+    destruct Hi as [(v & Hv & Hh & Hl & ->)|(h & l & Hh & Hl & ->)].
+    + destruct (get16_unit16 le v Hv) as (x & y & U & Gv). rewrite U. cbn [app].
+      rewrite G8_unfold by discriminate. unfold from16_step. cbv zeta. rewrite Gv, Hh, Hl, !andb_false_r.
+      apply IH, Hr.
+    + assert (Hhr : 0 <= h < 65536) by (unfold is_hi in Hh; lia). assert (Hlr : 0 <= l < 65536) by (unfold is_lo in Hl; lia).
+      destruct (get16_unit16 le h Hhr) as (x1 & y1 & U1 & G1). destruct (get16_unit16 le l Hlr) as (x2 & y2 & U2 & G2).
+      rewrite U1, U2. cbn [app]. rewrite G8_unfold by discriminate. unfold from16_step. cbv zeta.
+      rewrite G1, G2, Hh, Hl, !andb_false_r. cbn [negb]. apply IH, Hr.
+Qed.
+
+(* arbitrary UTF-8 input (any bytes): whatever the transform returns, the inverse transform accepts *)
+Theorem utf8_to_utf16_accepted : forall le l U, to16_flat le l = Some U -> exists V, from16_flat le U = Some V.
+Proof.
+  intros le l U H. unfold to16_flat in H. destruct l as [|c tl]; [inversion H; subst; exists []; reflexivity|].
+  unfold G16 in H. destruct (to16_floop_good le _ true (c :: tl) (bom16 le) U H) as (items & Hg & ->).
+  unfold from16_flat.
+  assert (Hb : bom16 le = utf16_enc le 65279) by (destruct le; reflexivity).
+  rewrite Hb, G8_unfold by (destruct le; discriminate).
+  rewrite (from16_step_scalar le true 65279 _ ltac:(reflexivity)).
+  change ((65279 =? 65534) && true) with false. change ((65279 =? 65279) && true) with true. cbv iota.
+  apply G8_good, Hg.
+Qed.
+End Accepted.
+
+Lemma flat_res_ok : forall r l, flat_res r = Ok l -> exists t, r = Ok t /\ flat t = l.
+Proof. intros [t| |] l H; cbn in H; try discriminate. inversion H. eauto. Qed.
+
+(* C20 "NULL or accepted by the inverse", UTF-8 -> UTF-16, ARBITRARY input bytes and split: if the transform returns
+   data, the inverse transform accepts it however it is split *)
+Theorem utf8_to_utf16_inverse_accepts : forall le d e, wf_utf d ->
+  transform d F_UTF8 (fmt16 le) = Ok e ->
+  forall d', flat d' = flat e -> wf_utf d' -> exists t, transform d' (fmt16 le) F_UTF8 = Ok t.
+Proof.
+  intros le d e Hwf He d' Hd' Hwf'.
+  destruct (utf8_to_utf16_total le d Hwf) as [HT _]. rewrite He in HT. cbn [flat_res] in HT.
+  destruct (utf16_to_utf8_total le d' Hwf') as [HT' _].
+  destruct (Z.eqb_spec (dsize d) 0) as [E|E].
+  - assert (Hfd : flat d = []) by (apply Zlength_nil_inv; exact E).
+    assert (E' : dsize d' = 0) by (unfold dsize; rewrite Hd'; inversion HT as [H1]; rewrite H1, Hfd; reflexivity).
+    rewrite E' in HT'. change (0 =? 0) with true in HT'. cbv iota in HT'.
+    destruct (flat_res_ok _ _ HT') as (t & Et & _). eauto.
+  - destruct (to16_flat le (flat d)) as [U|] eqn:EU; [|discriminate]. inversion HT as [H1].
+    destruct (utf8_to_utf16_accepted le _ _ EU) as [V EV].
+    rewrite Hd', H1, EV in HT'. destruct (dsize d' =? 0); destruct (flat_res_ok _ _ HT') as (t & Et & _); eauto.
+Qed.
+
+(* the same for UTF-16 -> UTF-8 (input: arbitrary bytes) *)
+Theorem utf16_to_utf8_inverse_accepts : forall le d e, wf_utf d -> bytes (flat d) ->
+  transform d (fmt16 le) F_UTF8 = Ok e ->
+  forall d', flat d' = flat e -> wf_utf d' -> exists t, transform d' F_UTF8 (fmt16 le) = Ok t.
+Proof.
+  intros le d e Hwf Hb He d' Hd' Hwf'.
+  destruct (utf16_to_utf8_total le d Hwf) as [HT _]. rewrite He in HT. cbn [flat_res] in HT.
+  destruct (utf8_to_utf16_total le d' Hwf') as [HT' _].
+  destruct (Z.eqb_spec (dsize d) 0) as [E|E].
+  - assert (Hfd : flat d = []) by (apply Zlength_nil_inv; exact E).
+    assert (E' : dsize d' = 0) by (unfold dsize; rewrite Hd'; inversion HT as [H1]; rewrite H1, Hfd; reflexivity).
+    rewrite E' in HT'. change (0 =? 0) with true in HT'. cbv iota in HT'.
+    destruct (flat_res_ok _ _ HT') as (t & Et & _). eauto.
+  - destruct (from16_flat le (flat d)) as [V|] eqn:EV; [|discriminate]. inversion HT as [H1].
+    destruct (utf16_to_utf8_accepted le _ _ Hb EV) as [U EU].
+    rewrite Hd', H1, EU in HT'. destruct (dsize d' =? 0); destruct (flat_res_ok _ _ HT') as (t & Et & _); eauto.
+Qed.
+
+(* the two remaining text pairs that involve no conversion *)
+Theorem utf8_to_utf8_strips_bom : forall d,
+  exists t, transform d F_UTF8 F_UTF8 = Ok t /\ flat t = strip_bom8 (flat d).
+Proof.
+  intros d. assert (E : transform d F_UTF8 F_UTF8 = if dsize d =? 0 then Ok d else to_utf8_without_bom d) by reflexivity.
+  rewrite E. destruct (Z.eqb_spec (dsize d) 0) as [Hz|Hz].
+  - exists d. split; [reflexivity|]. assert (Hf : flat d = []) by (apply Zlength_nil_inv; exact Hz). rewrite Hf. reflexivity.
+  - apply to_utf8_without_bom_flat.
+Qed.
+
+Theorem none_to_none_identity : forall d, transform d F_NONE F_NONE = Ok d.
+Proof. intros d. assert (E : transform d F_NONE F_NONE = if dsize d =? 0 then Ok d else Ok d) by reflexivity. rewrite E. destruct (dsize d =? 0); reflexivity. Qed.
